@@ -364,7 +364,11 @@ func judgeL1(c *Case, o obs1) []fail {
 			distinct[it.Seq] = true
 		}
 	}
-	if !c.LateRecord && c.PauseMs == 0 && len(distinct) <= c.MaxSz && !o.Slow {
+	// grouping is required whenever the in-flight bound cannot be the reason for an early eviction: the stream has
+	// no more distinct events than the reassembler's limit, or (the property's own bound) never more than three
+	// kernel events are open at once while the limit was left at the daemon's own constant
+	open3 := c.Mode != "smallmax" && maxConcurrent(lines[:limit]) <= 3
+	if !c.LateRecord && c.PauseMs == 0 && (len(distinct) <= c.MaxSz || open3) && !o.Slow {
 		seen := map[uint32]bool{}
 		for _, g := range o.Groups {
 			if len(g) == 0 {
@@ -410,6 +414,34 @@ func judgeL1(c *Case, o obs1) []fail {
 		fs = append(fs, fail{"error:spurious", "no injected failure, but the errors channel holds " + o.Slot})
 	}
 	return fs
+}
+
+// maxConcurrent: the largest number of events open at the same time, an event being open from its first to its
+// last record in the stream
+func maxConcurrent(lines []Item) int {
+	first, last := map[uint32]int{}, map[uint32]int{}
+	for i, it := range lines {
+		if it.Empty || it.Bad != "" {
+			continue
+		}
+		if _, ok := first[it.Seq]; !ok {
+			first[it.Seq] = i
+		}
+		last[it.Seq] = i
+	}
+	best := 0
+	for i := range lines {
+		n := 0
+		for s, f := range first {
+			if f <= i && i <= last[s] {
+				n++
+			}
+		}
+		if n > best {
+			best = n
+		}
+	}
+	return best
 }
 
 func eventSec(text string) int64 {
